@@ -1,7 +1,6 @@
 import enum
 import numpy as np
 from queue import deque
-from itertools import permutations
 
 INTERNET = 0
 
@@ -90,16 +89,32 @@ def get_minimal_hops_to_goal(topology, sensitive_addresses):
         if subnet not in subnets_to_visit:
             subnets_to_visit.append(subnet)
 
-    # find minimum shortest path that visits internet subnet and all
-    # sensitive subnets by checking all possible permutations
-    shortest = max_value
-    for pm in permutations(subnets_to_visit):
-        pm_sum = 0
-        for i in range(len(pm) - 1):
-            pm_sum += distance[pm[i]][pm[i+1]]
-        shortest = min(shortest, pm_sum)
+    # find size of the smallest tree that connects the internet subnet and all
+    # sensitive subnets (a subnet shared by the paths to several sensitive
+    # subnets only needs to be traversed once), using dynamic programming
+    # over subsets of the subnets to visit (Dreyfus-Wagner)
+    distance = distance.astype(np.int64)
+    num_to_visit = len(subnets_to_visit)
+    all_visited = (1 << num_to_visit) - 1
+    # tree_size[m][v] = size of smallest tree connecting subnet v and the
+    # subnets to visit in bitmask m
+    tree_size = np.full(
+        (all_visited + 1, num_subnets), max_value, dtype=np.int64
+    )
+    for i, subnet in enumerate(subnets_to_visit):
+        tree_size[1 << i] = distance[subnet]
+    for m in range(1, all_visited + 1):
+        sub_m = (m - 1) & m
+        while sub_m > 0:
+            # join trees for two disjoint subsets of m at a common subnet
+            tree_size[m] = np.minimum(
+                tree_size[m], tree_size[sub_m] + tree_size[m ^ sub_m]
+            )
+            sub_m = (sub_m - 1) & m
+        # extend tree for m by shortest path to each subnet
+        tree_size[m] = (tree_size[m][:, np.newaxis] + distance).min(axis=0)
 
-    return shortest
+    return int(min(tree_size[all_visited].min(), max_value))
 
 
 def min_subnet_depth(topology):
